@@ -805,6 +805,188 @@ fn gen_adversarial(rng: &mut Rng, d: &D) -> String {
     s
 }
 
+/// delimiter sets `set_delimiters` must reject (hand-written part)
+fn invalid_pool() -> Vec<D> {
+    vec![
+        D::new("", "%}", "{{", "}}", "{#", "#}"),
+        D::new("{", "%}", "{{", "}}", "{#", "#}"),
+        D::new("[[[", "%}", "{{", "}}", "{#", "#}"),
+        D::new("日", "%}", "{{", "}}", "{#", "#}"),
+        D::new("{%", "%", "{{", "}}", "{#", "#}"),
+        D::new("{%", "%}", "{{", "}}}", "{#", "#}"),
+        D::new("{%", "%}", "{{", "}}", "{#", "😀"),
+        D::new("[[", "%}", "{{", "}}", "[[", "#}"),
+        D::new("{{", "%}", "{{", "}}", "{#", "#}"),
+        D::new("{%", "%}", "{#", "}}", "{#", "#}"),
+        D::new("{%", "{%", "{{", "{{", "{#", "{#"),
+        D::new("{%", "{{", "{{", "{%", "{#", "#}"),
+        D::new("é", "é", "ü", "ü", "ß", "ß"),
+        D::new("éa", "%}", "{{", "}}", "{#", "#}"),
+        D::new("{%", "%}", "{{", "}}", "{##", "#}"),
+        D::new("{%", "%}", "{{", "}}", "{%", "#}"),
+    ]
+}
+
+/// the k-th rejected variant of the accepted set `d` (they keep most of `d`, so a source spelled
+/// under `d` would be read differently if the rejected set were used): (set, why)
+fn rejected_variant(d: &D, k: usize) -> Option<Call> {
+    let mut r = d.clone();
+    let why = match k {
+        0 => {
+            r.cs = r.bs.clone();
+            "starts_collide"
+        }
+        1 => {
+            r.vs = r.bs.clone();
+            "starts_collide"
+        }
+        2 => {
+            r.cs = r.vs.clone();
+            "starts_collide"
+        }
+        3 => {
+            r.bs = r.vs.clone();
+            "starts_collide"
+        }
+        4 => {
+            r.vs.push('x');
+            "three_bytes"
+        }
+        5 => {
+            r.cs.push('#');
+            "three_bytes"
+        }
+        6 => {
+            r.bs = "日".into();
+            "three_bytes"
+        }
+        7 => {
+            r.ce.push('!');
+            "three_bytes"
+        }
+        8 => {
+            r.bs = String::new();
+            "empty"
+        }
+        9 => {
+            r.vs = String::new();
+            "empty"
+        }
+        10 => {
+            r.cs = r.cs.chars().next().filter(|c| c.is_ascii()).map(|c| c.to_string()).unwrap_or_else(|| "x".into());
+            "one_byte"
+        }
+        11 => {
+            r.ve = r.ve.chars().next().filter(|c| c.is_ascii()).map(|c| c.to_string()).unwrap_or_else(|| "x".into());
+            "one_byte"
+        }
+        _ => return None,
+    };
+    (!r.accepted()).then_some(Call { d: r, ok: false, why })
+}
+
+fn gen_rejected(rng: &mut Rng, d: &D, src: &str) -> Call {
+    loop {
+        let c = match rng.below(10) {
+            0..=5 => rejected_variant(d, rng.below(12)),
+            6 => {
+                // unrelated to the source's set: every marker of the source would become text
+                let (mut r, _) = gen_delims(rng);
+                r.cs = r.bs.clone();
+                Some(Call { d: r, ok: false, why: "foreign_colliding" })
+            }
+            7 => {
+                let pool = invalid_pool();
+                Some(Call { d: rng.pick(&pool).clone(), ok: false, why: "pool" })
+            }
+            _ => {
+                // two start delimiters taken from the text itself: literal text would become markers
+                let idx: Vec<usize> = src.char_indices().map(|x| x.0).chain(std::iter::once(src.len())).collect();
+                let cands: Vec<&str> = idx.iter().flat_map(|&a| idx.iter().filter(move |&&b| b == a + 2).map(move |&b| &src[a..b])).collect();
+                if cands.is_empty() {
+                    None
+                } else {
+                    let w = rng.pick(&cands).to_string();
+                    let mut r = d.clone();
+                    r.vs = w.clone();
+                    r.cs = w;
+                    Some(Call { d: r, ok: false, why: "text_derived" })
+                }
+            }
+        };
+        if let Some(c) = c {
+            if !c.d.accepted() {
+                return c;
+            }
+        }
+    }
+}
+
+/// A sequence of `set_delimiters` calls with at least one rejected call after the last accepted
+/// one, whose effective set (last accepted, else the default) is `d`
+fn gen_history(rng: &mut Rng, d: &D, src: &str) -> Vec<Call> {
+    let mut h = Vec::new();
+    if is_custom(d) || rng.chance(1, 3) {
+        if rng.chance(1, 3) {
+            h.push(Call { d: gen_delims(rng).0, ok: true, why: "accepted" });
+        }
+        if rng.chance(1, 2) {
+            h.push(gen_rejected(rng, d, src));
+        }
+        h.push(Call { d: d.clone(), ok: true, why: "accepted" });
+    }
+    for _ in 0..1 + rng.below(2) {
+        h.push(gen_rejected(rng, d, src));
+    }
+    h
+}
+
+/// Deterministic block: every hand-written and derived rejected set x fixed sources x call shapes
+fn history_cases() -> Vec<Case> {
+    let preset = D::new("<%", "%>", "<<", ">>", "<#", "#>");
+    let other = D::new("[%", "%]", "[[", "]]", "[#", "#]");
+    let sources: Vec<Vec<Seg>> = vec![
+        vec![
+            Seg::Text("a ".into()),
+            Seg::Comment { dl: false, dr: false, body: " note ".into() },
+            Seg::Text("b ".into()),
+            Seg::Var { dl: false, dr: false, form: 0 },
+            Seg::Text(" c { %} ".into()),
+            Seg::Tag { dl: false, dr: true, kind: 0, form: 0 },
+            Seg::Raw { d: [false; 4], ws: [1; 4], body: " r ".into() },
+            Seg::Text(" end".into()),
+        ],
+        vec![Seg::Text(" x ".into()), Seg::Var { dl: true, dr: true, form: 1 }, Seg::Text(" y ".into())],
+        vec![Seg::Text("plain { text %} #} only".into())],
+    ];
+    let mut out = Vec::new();
+    // effective set: default never set, default set explicitly, a custom set
+    for (eff, explicit) in [(D::default(), false), (D::default(), true), (preset.clone(), true)] {
+        let mut rejected: Vec<Call> = invalid_pool().into_iter().filter(|d| !d.accepted()).map(|d| Call { d, ok: false, why: "pool" }).collect();
+        rejected.extend((0..12).filter_map(|k| rejected_variant(&eff, k)));
+        for (ri, inv) in rejected.iter().enumerate() {
+            let inv2 = rejected[(ri + 5) % rejected.len()].clone();
+            for segs in &sources {
+                let acc = |d: &D| Call { d: d.clone(), ok: true, why: "accepted" };
+                let shapes: Vec<Vec<Call>> = if explicit {
+                    vec![vec![acc(&eff), inv.clone()], vec![acc(&other), inv.clone(), acc(&eff)], vec![inv.clone(), acc(&eff), inv2.clone(), inv.clone()]]
+                } else {
+                    vec![vec![inv.clone()], vec![inv2.clone(), inv.clone()]]
+                };
+                for (si, history) in shapes.into_iter().enumerate() {
+                    if !spells_cleanly(segs, &eff) {
+                        continue;
+                    }
+                    let mut c = Case::from_segs("history", eff.clone(), if is_custom(&eff) { "preset" } else { "default" }, segs.clone(), None, 0);
+                    c.x = Extra { history, via_template: (ri + si) % 2 == 1, wseed: (ri * 31 + si) as u64 };
+                    out.push(c);
+                }
+            }
+        }
+    }
+    out
+}
+
 /// Every `-` placement over fixed shapes: `T X T`, `X T`, `T X`, `X`, `T X [mid] Y T` for markers
 /// X, Y in {var, set tag, comment, raw}, with whitespace-padded texts.
 fn exhaustive_cases() -> Vec<(D, Vec<Seg>)> {
@@ -880,12 +1062,34 @@ struct Case {
     /// second delimiter set for the respelling differential
     d2: Option<D>,
     fixed: u32,
+    /// instance history, API path and writer seed
+    x: Extra,
+}
+
+/// One `set_delimiters` call of an instance history
+#[derive(Clone, Debug)]
+struct Call {
+    d: D,
+    /// what the stated rule says the call returns
+    ok: bool,
+    why: &'static str,
+}
+
+#[derive(Clone, Debug, Default)]
+struct Extra {
+    /// `set_delimiters` calls made on a fresh instance before the template is rendered; the last
+    /// accepted one (or the default set when there is none) is the case's delimiter set `d`
+    history: Vec<Call>,
+    /// after the history: `add_raw_template` + `render` / `render_to` instead of `render_str` / `render_str_to`
+    via_template: bool,
+    /// seed of the random short-write writer
+    wseed: u64,
 }
 
 impl Case {
     fn from_segs(stream: &'static str, d: D, dclass: &'static str, segs: Vec<Seg>, d2: Option<D>, fixed: u32) -> Case {
         let src = spell(&segs, &d).src;
-        Case { stream, d, dclass, segs: Some(segs), src, d2, fixed }
+        Case { stream, d, dclass, segs: Some(segs), src, d2, fixed, x: Extra::default() }
     }
     fn replay_json(&self, extra: serde_json::Value) -> serde_json::Value {
         json!({
@@ -897,6 +1101,9 @@ impl Case {
             "segments": self.segs.as_ref().map(|s| segs_to_json(s)),
             "context": {"m": MARK},
             "autoescape": false,
+            "history": self.x.history.iter().map(|c| json!({"delimiters": c.d.to_json(), "expect_ok": c.ok, "why": c.why})).collect::<Vec<_>>(),
+            "via_template": self.x.via_template,
+            "writers": {"kinds": WRITERS, "random_seed": self.x.wseed.to_string()},
             "detail": extra,
             "rerun": "harness/target/release/c08 --replay <this file>",
         })
@@ -910,6 +1117,10 @@ struct Outcome {
     rend: String,
     checks: u32,
     fail: Option<String>,
+    /// per writer kind: (renders, `write` calls, calls that took fewer bytes than offered)
+    wstats: [(u64, u64, u64); 3],
+    /// the last rejected set of the history would lex this source differently from the effective one
+    history_visible: bool,
 }
 
 thread_local! {
@@ -928,7 +1139,19 @@ fn lex_err_of(tok: &str) -> Option<&str> {
     last.strip_prefix("ERR:").map(|r| r.split('@').next().unwrap_or(""))
 }
 
-fn render_wire(d: &D, src: &str, tok_filt: &str) -> String {
+fn wire_of(r: Result<Result<Vec<u8>, tera::Error>, String>, tok_filt: &str) -> String {
+    match r {
+        Err(p) => format!("panic:{}", p.replace('\n', " ")),
+        Ok(Ok(bytes)) => format!("ok:{}", hex(&bytes)),
+        Ok(Err(_)) => match lex_err_of(tok_filt) {
+            Some(c) => format!("err:{c}"),
+            None => "err:parse".to_string(),
+        },
+    }
+}
+
+/// run `f` on this thread's engine for the (accepted) delimiter set `d`
+fn with_engine<T>(d: &D, f: impl FnOnce(Option<&Tera>) -> T) -> T {
     ENGINES.with(|cell| {
         let mut map = cell.borrow_mut();
         if map.len() > 300 {
@@ -938,19 +1161,104 @@ fn render_wire(d: &D, src: &str, tok_filt: &str) -> String {
             let mut t = Tera::default();
             t.set_delimiters(d.to_delimiters()).ok().map(|_| t)
         });
+        f(eng.as_ref())
+    })
+}
+
+fn render_wire(d: &D, src: &str, tok_filt: &str) -> String {
+    with_engine(d, |eng| {
         let Some(tera) = eng else {
             return "err:delimiters_rejected".to_string();
         };
         let ctx = context();
-        match catch(std::panic::AssertUnwindSafe(|| tera.render_str(src, &ctx, false))) {
-            Err(p) => format!("panic:{}", p.replace('\n', " ")),
-            Ok(Ok(s)) => format!("ok:{}", hex(s.as_bytes())),
-            Ok(Err(_)) => match lex_err_of(tok_filt) {
-                Some(c) => format!("err:{c}"),
-                None => "err:parse".to_string(),
-            },
-        }
+        wire_of(catch(std::panic::AssertUnwindSafe(|| tera.render_str(src, &ctx, false).map(String::into_bytes))), tok_filt)
     })
+}
+
+// ---- writer channel: the same bytes must arrive through writers that accept fewer bytes than offered
+
+const WRITERS: [&str; 3] = ["one_byte_per_call", "random_1_to_7_bytes", "half_of_each_buffer"];
+
+/// A correct `Write` whose `write` takes only part of the buffer (n > 0, never an error)
+struct ShortWriter {
+    kind: usize,
+    rng: Rng,
+    buf: Vec<u8>,
+    calls: u64,
+    short: u64,
+}
+
+impl std::io::Write for ShortWriter {
+    fn write(&mut self, b: &[u8]) -> std::io::Result<usize> {
+        if b.is_empty() {
+            return Ok(0);
+        }
+        let n = match self.kind {
+            0 => 1,
+            1 => 1 + self.rng.below(7),
+            _ => b.len().div_ceil(2),
+        }
+        .min(b.len());
+        self.calls += 1;
+        if n < b.len() {
+            self.short += 1;
+        }
+        self.buf.extend_from_slice(&b[..n]);
+        Ok(n)
+    }
+    fn flush(&mut self) -> std::io::Result<()> {
+        Ok(())
+    }
+}
+
+/// render through `render_str_to` into a short-write writer: (wire, write calls, short calls)
+fn render_writer(c: &Case, kind: usize, tok_filt: &str) -> (String, u64, u64) {
+    with_engine(&c.d, |eng| {
+        let Some(tera) = eng else {
+            return ("err:delimiters_rejected".to_string(), 0, 0);
+        };
+        let ctx = context();
+        let mut w = ShortWriter { kind, rng: Rng::new(c.x.wseed), buf: Vec::new(), calls: 0, short: 0 };
+        let r = catch(std::panic::AssertUnwindSafe(|| tera.render_str_to(&c.src, &ctx, false, &mut w)));
+        let (calls, short) = (w.calls, w.short);
+        (wire_of(r.map(|r| r.map(|_| w.buf)), tok_filt), calls, short)
+    })
+}
+
+// ---- instance history: rejected `set_delimiters` calls must leave the instance as it was
+
+/// Replay the history on a fresh instance, then render the source on that same instance:
+/// (what every call returned, render wire, writer-path wire)
+fn history_render(c: &Case, tok_filt: &str) -> (Vec<Result<bool, String>>, String, String) {
+    let mut tera = Tera::default();
+    let mut got = Vec::with_capacity(c.x.history.len());
+    for call in &c.x.history {
+        got.push(catch(std::panic::AssertUnwindSafe(|| tera.set_delimiters(call.d.to_delimiters()).is_ok())));
+    }
+    let ctx = context();
+    let mut w = ShortWriter { kind: 1, rng: Rng::new(c.x.wseed), buf: Vec::new(), calls: 0, short: 0 };
+    if c.x.via_template {
+        let added = catch(std::panic::AssertUnwindSafe(|| tera.add_raw_template("t", &c.src)));
+        match added {
+            Ok(Ok(())) => {}
+            Ok(Err(e)) => {
+                let r = wire_of(Ok(Err(e)), tok_filt);
+                return (got, r.clone(), r);
+            }
+            Err(p) => return (got, format!("panic:{p}"), format!("panic:{p}")),
+        }
+        let r1 = wire_of(catch(std::panic::AssertUnwindSafe(|| tera.render("t", &ctx).map(String::into_bytes))), tok_filt);
+        let r2 = catch(std::panic::AssertUnwindSafe(|| tera.render_to("t", &ctx, &mut w)));
+        (got, r1, wire_of(r2.map(|r| r.map(|_| w.buf)), tok_filt))
+    } else {
+        let r1 = wire_of(catch(std::panic::AssertUnwindSafe(|| tera.render_str(&c.src, &ctx, false).map(String::into_bytes))), tok_filt);
+        let r2 = catch(std::panic::AssertUnwindSafe(|| tera.render_str_to(&c.src, &ctx, false, &mut w)));
+        (got, r1, wire_of(r2.map(|r| r.map(|_| w.buf)), tok_filt))
+    }
+}
+
+fn history_text(c: &Case) -> String {
+    c.x.history.iter().map(|h| format!("{:?}->{}", h.d.fields(), if h.ok { "Ok" } else { "Err" })).collect::<Vec<_>>().join(", ")
 }
 
 /// (d) raw token ranges partition the source (gaps only inside tags, ASCII whitespace only) and
@@ -1071,7 +1379,40 @@ fn run_case(c: &Case) -> Outcome {
             set(format!("source without a start delimiter does not render to itself: `{}`", short(&rend)));
         }
     }
-    Outcome { tok_raw, tok_filt, rend, checks, fail }
+    // same bytes through every output channel: writers that take fewer bytes than offered
+    let mut wstats = [(0u64, 0u64, 0u64); 3];
+    if rend.starts_with("ok:") {
+        for kind in 0..3 {
+            checks += 1;
+            let (w, calls, short_calls) = render_writer(c, kind, &tok_filt);
+            wstats[kind] = (1, calls, short_calls);
+            if w != rend {
+                set(format!("writer {}: render_str_to delivered `{}`, render_str returned `{}`", WRITERS[kind], short(&w), short(&rend)));
+            }
+        }
+    }
+    // instance history: rejected set_delimiters calls change nothing
+    let mut history_visible = false;
+    if !c.x.history.is_empty() {
+        let (got, r1, r2) = history_render(c, &tok_filt);
+        for (call, g) in c.x.history.iter().zip(got.iter()) {
+            checks += 1;
+            if *g != Ok(call.ok) {
+                set(format!("history: set_delimiters({:?}) returned {:?}, the stated rule says {}", call.d.fields(), g, if call.ok { "Ok" } else { "Err" }));
+            }
+        }
+        checks += 2;
+        let api = if c.x.via_template { "add_raw_template + render" } else { "render_str" };
+        if r1 != rend {
+            set(format!("history: after [{}] on one instance, {api} gives `{}`; an instance with only the effective set {:?} gives `{}`", history_text(c), short(&r1), c.d.fields(), short(&rend)));
+        } else if r2 != rend {
+            set(format!("history: after [{}] on one instance, the writer path of {api} delivers `{}` instead of `{}`", history_text(c), short(&r2), short(&rend)));
+        }
+        if let Some(last) = c.x.history.iter().rev().find(|h| !h.ok) {
+            history_visible = canon_tokens(&c.src, &last.d, false) != tok_raw;
+        }
+    }
+    Outcome { tok_raw, tok_filt, rend, checks, fail, wstats, history_visible }
 }
 
 fn short(s: &str) -> String {
@@ -1138,15 +1479,18 @@ fn candidates(c: &Case) -> Vec<Case> {
             }
             w /= 2;
         }
-        if c.d != D::default() {
+        if c.d != D::default() && c.x.history.is_empty() {
             out.push(Case { d: D::default(), dclass: "default", ..c.clone() });
         }
+        out.extend(history_candidates(c));
         return out;
     };
     let mut push = |segs: Vec<Seg>, d: &D| {
         let ok = spells_cleanly(&segs, d) && c.d2.as_ref().is_none_or(|d2| spells_cleanly(&segs, d2));
         if ok && (&segs != c.segs.as_ref().unwrap() || d != &c.d) {
-            out.push(Case::from_segs(c.stream, d.clone(), if *d == D::default() { "default" } else { c.dclass }, segs, c.d2.clone(), c.fixed));
+            let mut n = Case::from_segs(c.stream, d.clone(), if *d == D::default() { "default" } else { c.dclass }, segs, c.d2.clone(), c.fixed);
+            n.x = c.x.clone();
+            out.push(n);
         }
     };
     let n = segs.len();
@@ -1179,7 +1523,8 @@ fn candidates(c: &Case) -> Vec<Case> {
             }
         }
     }
-    if c.d != D::default() {
+    if c.d != D::default() && c.x.history.is_empty() {
+        // (with a history the effective set is part of the case: it stays)
         push(segs.clone(), &D::default());
     }
     // shorten texts and bodies
@@ -1277,6 +1622,28 @@ fn candidates(c: &Case) -> Vec<Case> {
             push(v, &c.d);
         }
     }
+    out.extend(history_candidates(c));
+    out
+}
+
+/// shorter histories with the same effective set; the plain API instead of a named template
+fn history_candidates(c: &Case) -> Vec<Case> {
+    let mut out = Vec::new();
+    let last_ok = c.x.history.iter().rposition(|h| h.ok);
+    for i in 0..c.x.history.len() {
+        // the last accepted call defines the effective set: it may only go when that set is the default
+        if Some(i) == last_ok && (is_custom(&c.d) || c.x.history[..i].iter().any(|h| h.ok)) {
+            continue;
+        }
+        let mut n = c.clone();
+        n.x.history.remove(i);
+        out.push(n);
+    }
+    if c.x.via_template {
+        let mut n = c.clone();
+        n.x.via_template = false;
+        out.push(n);
+    }
     out
 }
 
@@ -1329,7 +1696,13 @@ fn burst(c: &Case, rng: &mut Rng, n: usize) -> Option<(Case, String)> {
                 }
                 // insertions may unbalance if/for pairs: such variants simply fail to parse and are not counted
                 let Some(fixed) = sanitize(&mut v, &[&d]) else { continue };
-                Case::from_segs(c.stream, d, c.dclass, v, None, fixed)
+                let mut n = Case::from_segs(c.stream, d, c.dclass, v, None, fixed);
+                n.x.wseed = rng.next_u64();
+                if n.d == c.d {
+                    n.x.history = c.x.history.clone();
+                    n.x.via_template = c.x.via_template;
+                }
+                n
             }
             None => {
                 let mut chars: Vec<char> = c.src.chars().collect();
@@ -1367,7 +1740,13 @@ fn replay(path: &str, env: &Env) {
         None => spell(segs.as_deref().unwrap_or(&[]), &d).src,
     };
     let d2 = D::from_json(&j["delimiters2"]);
-    let c = Case { stream: "structured", d: d.clone(), dclass: "replay", segs: segs.clone(), src: src.clone(), d2: d2.clone(), fixed: 0 };
+    let history: Vec<Call> = j["history"]
+        .as_array()
+        .map(|a| a.iter().filter_map(|h| Some(Call { d: D::from_json(&h["delimiters"])?, ok: h["expect_ok"].as_bool()?, why: "replay" })).collect())
+        .unwrap_or_default();
+    let wseed = j["writers"]["random_seed"].as_str().and_then(|s| s.parse::<u64>().ok()).unwrap_or(0);
+    let x = Extra { history, via_template: j["via_template"].as_bool().unwrap_or(false), wseed };
+    let c = Case { stream: "structured", d: d.clone(), dclass: "replay", segs: segs.clone(), src: src.clone(), d2: d2.clone(), fixed: 0, x };
     let o = run_case(&c);
     println!("delimiters: {:?}  (accepted: {})", d.fields(), d.accepted());
     println!("source: {src:?}");
@@ -1385,6 +1764,20 @@ fn replay(path: &str, env: &Env) {
             let t2 = canon_tokens(&src2, d2, true);
             println!("respelled with {:?}: {src2:?}\nrespelled render:                 {}", d2.fields(), render_wire(d2, &src2, &t2));
         }
+    }
+    for kind in 0..3 {
+        let (w, calls, short_calls) = render_writer(&c, kind, &o.tok_filt);
+        println!("render_str_to, writer {:<20} {}   [{} write calls, {} short; {}]", WRITERS[kind], w, calls, short_calls, if w == o.rend { "same bytes" } else { "DIFFERS" });
+    }
+    if !c.x.history.is_empty() {
+        let (got, r1, r2) = history_render(&c, &o.tok_filt);
+        println!("instance history (fresh Tera::default(), then in order):");
+        for (call, g) in c.x.history.iter().zip(got.iter()) {
+            println!("  set_delimiters({:?}) -> {:?}   (rule: {})", call.d.fields(), g, if call.ok { "Ok" } else { "Err" });
+        }
+        let api = if c.x.via_template { "add_raw_template + render" } else { "render_str" };
+        println!("  then {api}:            {r1}   [{}]", if r1 == o.rend { "same as a clean instance" } else { "DIFFERS from a clean instance" });
+        println!("  then its writer path:  {r2}");
     }
     println!("direct oracle: {}", o.fail.clone().unwrap_or_else(|| "holds".into()));
     let exe = driver::driver_path(&env.verif_dir, "drv_c08");
@@ -1445,6 +1838,28 @@ fn tally(report: &mut Report, c: &Case, o: &Outcome) {
     }
     if c.d2.is_some() {
         report.count("respelling.pairs");
+    }
+    for (k, (n, calls, short_calls)) in o.wstats.iter().enumerate() {
+        if *n > 0 {
+            report.count(&format!("writer.{}.renders", WRITERS[k]));
+            report.count_n(&format!("writer.{}.write_calls", WRITERS[k]), *calls);
+            report.count_n(&format!("writer.{}.short_writes", WRITERS[k]), *short_calls);
+            if *short_calls > 0 {
+                report.count(&format!("writer.{}.renders_with_a_short_write", WRITERS[k]));
+            }
+        }
+    }
+    if !c.x.history.is_empty() {
+        report.count("history.cases");
+        report.count(&format!("history.calls.{}", c.x.history.len().min(6)));
+        report.count(if c.x.via_template { "history.api.add_raw_template_render" } else { "history.api.render_str" });
+        report.count(if c.x.history.iter().any(|h| h.ok) { "history.effective.set_explicitly" } else { "history.effective.default_never_set" });
+        for h in &c.x.history {
+            report.count(&format!("history.call.{}", h.why));
+        }
+        if o.history_visible {
+            report.count("history.last_rejected_set_would_change_lexing");
+        }
     }
     let Some(segs) = &c.segs else { return };
     if c.stream == "exhaustive" {
@@ -1522,6 +1937,15 @@ struct Plan {
     max_len: usize,
 }
 
+/// writer seed for every case; an instance history for one case in five
+fn attach_extra(c: &mut Case, rng: &mut Rng) {
+    c.x.wseed = rng.next_u64();
+    if c.stream != "adversarial" && rng.chance(1, 5) {
+        c.x.history = gen_history(rng, &c.d, &c.src);
+        c.x.via_template = rng.chance(1, 2);
+    }
+}
+
 fn gen_structured(rng: &mut Rng, max_len: usize) -> Case {
     loop {
         let (d, class) = gen_delims(rng);
@@ -1533,7 +1957,9 @@ fn gen_structured(rng: &mut Rng, max_len: usize) -> Case {
         }
         let ds: Vec<&D> = std::iter::once(&d).chain(d2.iter()).collect();
         if let Some(fixed) = sanitize(&mut segs, &ds) {
-            return Case::from_segs("structured", d, class, segs, d2, fixed);
+            let mut c = Case::from_segs("structured", d, class, segs, d2, fixed);
+            attach_extra(&mut c, rng);
+            return c;
         }
     }
 }
@@ -1565,14 +1991,16 @@ fn run_plan(plan: &Plan, fixed_cases: Vec<Case>, rng: &mut Rng, threads: usize) 
                     for _ in 0..nn {
                         let (d, dclass) = gen_delims(&mut rng);
                         let (src, fixed) = gen_nostart(&mut rng, &d);
-                        let c = Case { stream: "nostart", d, dclass, segs: None, src, d2: None, fixed };
+                        let mut c = Case { stream: "nostart", d, dclass, segs: None, src, d2: None, fixed, x: Extra::default() };
+                        attach_extra(&mut c, &mut rng);
                         let o = run_case(&c);
                         out.push((c, o));
                     }
                     for _ in 0..na {
                         let (d, dclass) = gen_delims(&mut rng);
                         let src = gen_adversarial(&mut rng, &d);
-                        let c = Case { stream: "adversarial", d, dclass, segs: None, src, d2: None, fixed: 0 };
+                        let mut c = Case { stream: "adversarial", d, dclass, segs: None, src, d2: None, fixed: 0, x: Extra::default() };
+                        attach_extra(&mut c, &mut rng);
                         let o = run_case(&c);
                         out.push((c, o));
                     }
@@ -1602,22 +2030,7 @@ fn main() {
 
     // accepted delimiter sets: the independent restatement agrees with `set_delimiters`
     {
-        let mut sets: Vec<D> = vec![
-            D::new("", "%}", "{{", "}}", "{#", "#}"),
-            D::new("{", "%}", "{{", "}}", "{#", "#}"),
-            D::new("[[[", "%}", "{{", "}}", "{#", "#}"),
-            D::new("日", "%}", "{{", "}}", "{#", "#}"),
-            D::new("{%", "%", "{{", "}}", "{#", "#}"),
-            D::new("{%", "%}", "{{", "}}}", "{#", "#}"),
-            D::new("{%", "%}", "{{", "}}", "{#", "😀"),
-            D::new("[[", "%}", "{{", "}}", "[[", "#}"),
-            D::new("{{", "%}", "{{", "}}", "{#", "#}"),
-            D::new("{%", "%}", "{#", "}}", "{#", "#}"),
-            D::new("{%", "{%", "{{", "{{", "{#", "{#"),
-            D::new("{%", "{{", "{{", "{%", "{#", "#}"),
-            D::new("é", "é", "ü", "ü", "ß", "ß"),
-            D::new("éa", "%}", "{{", "}}", "{#", "#}"),
-        ];
+        let mut sets: Vec<D> = invalid_pool();
         for _ in 0..env.budget(200, 2000) {
             sets.push(gen_delims(&mut rng).0);
             let f = |rng: &mut Rng| match rng.below(6) {
@@ -1655,6 +2068,7 @@ fn main() {
         }
     }
     report.count_n("exhaustive.dash_placement_cases", fixed_cases.len() as u64);
+    fixed_cases.extend(history_cases());
     // the shape of the repaired defect, both directions, and a few hand-written sources
     for (src, want) in [
         ("{{ m -}}{# c #}  text", "\u{1}  text"),
@@ -1667,7 +2081,7 @@ fn main() {
         ("{% raw %}{% endraw %}", ""),
         ("\u{a0}{{- m -}}\u{3000}|\u{200b}{{- m }}", "\u{1}|\u{200b}\u{1}"),
     ] {
-        let c = Case { stream: "probe", d: D::default(), dclass: "default", segs: None, src: src.to_string(), d2: None, fixed: 0 };
+        let c = Case { stream: "probe", d: D::default(), dclass: "default", segs: None, src: src.to_string(), d2: None, fixed: 0, x: Extra::default() };
         let o = run_case(&c);
         report.oracle_checks += 1;
         if o.rend != format!("ok:{}", hex(want.as_bytes())) {
@@ -1681,7 +2095,7 @@ fn main() {
     {
         let d = D::new("<<", ">>", "{{", "}}", "{#", "#}");
         for (src, want) in [("<< raw >>x<<< endraw >>", "x<"), ("<< raw >><<< endraw >>", "<"), ("<< raw >><<<< endraw >>", "<<"), ("a<< raw ->> <<<<< endraw >>b", "a<<<b")] {
-            let c = Case { stream: "probe", d: d.clone(), dclass: "preset", segs: None, src: src.to_string(), d2: None, fixed: 0 };
+            let c = Case { stream: "probe", d: d.clone(), dclass: "preset", segs: None, src: src.to_string(), d2: None, fixed: 0, x: Extra::default() };
             let o = run_case(&c);
             report.oracle_checks += 1;
             if o.rend != format!("ok:{}", hex(want.as_bytes())) {
@@ -1690,7 +2104,7 @@ fn main() {
             }
             fixed_cases.push(c);
         }
-        let c2 = Case { stream: "probe", d: D::default(), dclass: "default", segs: None, src: "a {%-- raw %} x {% endraw %} b".into(), d2: None, fixed: 0 };
+        let c2 = Case { stream: "probe", d: D::default(), dclass: "default", segs: None, src: "a {%-- raw %} x {% endraw %} b".into(), d2: None, fixed: 0, x: Extra::default() };
         let o2 = run_case(&c2);
         report.notes.push(format!("observation (not judged): `{}` gives `{}` (a second `-` right after `{{%-` is accepted in a raw tag)", c2.src, o2.rend));
         fixed_cases.push(c2);
@@ -1770,7 +2184,7 @@ fn main() {
             if let Some(f) = &o.fail {
                 report.oracle_failures += 1;
                 report.count(&format!("oracle_failure.{}", fail_class(f)));
-                if failures.len() < 40 {
+                if failures.len() < 400 {
                     failures.push((c.clone(), f.clone()));
                 }
             }
@@ -1805,6 +2219,18 @@ fn main() {
                 .collect()
         }
     };
+    // simplest first: default delimiters, short sources; one failure class after the other
+    failures.sort_by_key(|(c, _)| (is_custom(&c.d), c.src.len()));
+    {
+        let mut seen_class: HashMap<String, usize> = HashMap::new();
+        let mut rank: Vec<(usize, usize)> = failures.iter().enumerate().map(|(i, (_, f))| {
+            let n = seen_class.entry(fail_class(f).to_string()).or_insert(0);
+            *n += 1;
+            (*n, i)
+        }).collect();
+        rank.sort();
+        failures = rank.into_iter().map(|(_, i)| failures[i].clone()).collect();
+    }
     let mut reported: HashSet<String> = HashSet::new();
     for (c, f) in failures.iter().take(12) {
         let orig_ok = run_case(c).rend.starts_with("ok:");
